@@ -84,6 +84,21 @@ MUTANTS = [
  ("M24-stale-func-breakpoints-kept", "C19", "debugger.go",
   "\t\t\t\t// reset stale breakpoints\n\t\t\t\tn.start.setBreakOnCall(false)\n", "\t\t\t\t// reset stale breakpoints\n",
   "SetBreakpoints no longer clears function breakpoints of an earlier request"),
+ ("M25-terminate-leaves-stopped-goroutines", "C19", "debugger.go",
+  "\t\tg.mode = DebugTerminate\n\t\tclose(g.resume)\n", "\t\tg.mode = DebugTerminate\n",
+  "Terminate marks the goroutines but does not release the ones stopped at a breakpoint"),
+ ("M26-detach-unconditional", "C19", "debugger.go",
+  "\t\t\tif interp.debugger == dbg {\n\t\t\t\tinterp.debugger = nil\n\t\t\t}\n", "\t\t\tinterp.debugger = nil\n",
+  "the goroutine of a finished session clears the debugger field even if a new session has been started (re-introduces the defect repaired by a2e8040)"),
+ ("M27-deferred-panic-eager", "C06", "run.go",
+  "\tif n.anc.kind == deferStmt {\n\t\t// A deferred panic is raised when the function ends", "\tif false && n.anc.kind == deferStmt {\n\t\t// A deferred panic is raised when the function ends",
+  "defer panic(v) raises at the defer statement again (re-introduces the defect repaired by eb7df2c)"),
+ ("M28-import-init-panic-escapes", "C06", "src.go",
+  "\t\tif r := recover(); r != nil {\n\t\t\tvar pc [64]uintptr // 64 frames should be enough.\n\t\t\tn := runtime.Callers(1, pc[:])\n\t\t\terr = Panic{Value: r, Callers: pc[:n], Stack: debug.Stack()}\n\t\t}\n", "\t\tif r := recover(); r != nil {\n\t\t\tpanic(r)\n\t\t}\n\t\t_, _ = runtime.Callers, debug.Stack\n",
+  "a panic raised while a source package is initialised escapes Eval again (re-introduces the defect repaired by 7789d12)"),
+ ("M29-done-channel-per-evaluation", "C09", "interp.go",
+  "\tif interp.done == nil {\n\t\tinterp.done = make(chan struct{})\n\t}\n", "\tinterp.done = make(chan struct{})\n",
+  "every WithContext entry point installs a fresh done channel again (re-introduces the defect repaired by ff0a250)"),
 ]
 
 def main():
